@@ -48,9 +48,13 @@ type peer struct {
 	// headers come: legacy = before anything else of the handshake, Streamable = the listening stream after it) | endpointStall (legacy: the stream is up, no endpoint event) |
 	// postStall (legacy: initialize accepted with 202, never answered) | postHold (the initialize POST is never responded to; the
 	// script may answer it later through initHeld) | postReset | http500 | errorReply | garbage | initializedRefused
-	hs       string
-	initHeld chan *arrival // postHold: the initialize request (its hijacked connection)
-	initID   json.RawMessage
+	hs string
+	// answerStall: how the POST that carries the client's answer to a request of the server is treated: "" = 202 at once |
+	// preHeaders (accepted, no response) | postHeaders (202 and headers that promise a body, no body) | midBody (part of the body)
+	answerStall string
+	answers     chan *arrival
+	initHeld    chan *arrival // postHold: the initialize request (its hijacked connection)
+	initID      json.RawMessage
 }
 
 // faultyListener ends new connections at accept once the peer is armed.
@@ -96,7 +100,7 @@ func newPeer(legacy bool) *peer {
 	if err != nil {
 		panic(err)
 	}
-	p := &peer{ln: ln, legacy: legacy, postMode: "ok", conns: map[net.Conn]bool{}, connState: map[net.Conn]http.ConnState{}, arrivals: make(chan *arrival, 64), gets: make(chan time.Time, 8), initHeld: make(chan *arrival, 4),
+	p := &peer{ln: ln, legacy: legacy, postMode: "ok", conns: map[net.Conn]bool{}, connState: map[net.Conn]http.ConnState{}, arrivals: make(chan *arrival, 64), gets: make(chan time.Time, 8), initHeld: make(chan *arrival, 4), answers: make(chan *arrival, 8),
 		streamUp: make(chan struct{}), release: make(chan struct{}), sid: "verif-session"}
 	mux := http.NewServeMux()
 	if legacy {
@@ -161,6 +165,8 @@ func (p *peer) hijack(w http.ResponseWriter) (net.Conn, *bufio.ReadWriter) {
 type rpcReq struct {
 	ID     json.RawMessage `json:"id"`
 	Method string          `json:"method"`
+	Result json.RawMessage `json:"result"`
+	Error  json.RawMessage `json:"error"`
 	Params struct {
 		Arguments struct {
 			Nonce string `json:"nonce"`
@@ -215,6 +221,9 @@ func (p *peer) streamable(w http.ResponseWriter, r *http.Request) {
 		default:
 			fmt.Fprintf(w, `{"jsonrpc":"2.0","id":%s,"result":%s}`, string(m.ID), initResult)
 		}
+	case m.Method == "" && len(m.ID) > 0 && (len(m.Result) > 0 || len(m.Error) > 0):
+		// the client's answer to a request of the server: accepted, and stalled the way the script says
+		p.holdAnswer(w, &m)
 	case len(m.ID) == 0:
 		if p.hs == "initializedRefused" {
 			http.Error(w, "injected", http.StatusInternalServerError)
@@ -294,6 +303,9 @@ func (p *peer) legacyPost(w http.ResponseWriter, r *http.Request) {
 		default:
 			fmt.Fprintf(s, "event: message\ndata: {\"jsonrpc\":\"2.0\",\"id\":%s,\"result\":%s}\n\n", string(m.ID), initResult)
 		}
+	case m.Method == "" && len(m.ID) > 0 && (len(m.Result) > 0 || len(m.Error) > 0):
+		// the client's answer to a request of the server: accepted, and stalled the way the script says
+		p.holdAnswer(w, &m)
 	case len(m.ID) == 0:
 		if p.hs == "initializedRefused" {
 			http.Error(w, "injected", http.StatusInternalServerError)
@@ -417,6 +429,37 @@ func endConn(c net.Conn, kind string) {
 		c.Close()
 	case "close":
 		c.Close()
+	}
+}
+
+func (p *peer) holdAnswer(w http.ResponseWriter, m *rpcReq) {
+	if p.answerStall == "" {
+		w.WriteHeader(http.StatusAccepted)
+		p.answers <- &arrival{id: m.ID, at: time.Now()}
+		return
+	}
+	c, bw := p.hijack(w)
+	switch p.answerStall {
+	case "postHeaders":
+		writeAll(c, "HTTP/1.1 202 Accepted\r\nContent-Type: application/json\r\nContent-Length: 10\r\n\r\n")
+	case "midBody":
+		writeAll(c, "HTTP/1.1 202 Accepted\r\nContent-Type: application/json\r\nContent-Length: 10\r\n\r\n{\"ok\"")
+	}
+	p.answers <- &arrival{id: m.ID, conn: c, bw: bw, at: time.Now()}
+}
+
+// connOpen: is the connection still open as seen from the peer (a read runs into its deadline instead of a FIN / RST)?
+func connOpen(c net.Conn, wait time.Duration) bool {
+	buf := make([]byte, 512)
+	dl := time.Now().Add(wait)
+	for {
+		c.SetReadDeadline(dl)
+		_, err := c.Read(buf)
+		if err == nil {
+			continue
+		}
+		ne, ok := err.(net.Error)
+		return ok && ne.Timeout()
 	}
 }
 
